@@ -10,11 +10,14 @@ import (
 
 type verifMergeInfo struct{}
 
-func verifPoint(s *Scorch, name string, args ...uint64)                                  {}
-func verifIntroduceSegment(s *Scorch, next *segmentIntroduction, snap *IndexSnapshot)    {}
-func verifPersistedIDs(m map[uint64]segment.Segment) []uint64                            { return nil }
-func verifIntroducePersist(s *Scorch, ids []uint64, snap *IndexSnapshot)                 {}
-func verifMergeTasks(sm *segmentMerge) *verifMergeInfo                                   { return nil }
-func verifMergeStart(s *Scorch, epoch uint64, sm *segmentMerge)                          {}
+func verifPoint(s *Scorch, name string, args ...uint64)                               {}
+func verifPointName(s *Scorch, name string, str string)                               {}
+func verifPersistPrepared(s *Scorch, snap *IndexSnapshot)                             {}
+func verifCopy(s *Scorch, name string, snap *IndexSnapshot)                           {}
+func verifIntroduceSegment(s *Scorch, next *segmentIntroduction, snap *IndexSnapshot) {}
+func verifPersistedIDs(m map[uint64]segment.Segment) []uint64                         { return nil }
+func verifIntroducePersist(s *Scorch, ids []uint64, snap *IndexSnapshot)              {}
+func verifMergeTasks(sm *segmentMerge) *verifMergeInfo                                { return nil }
+func verifMergeStart(s *Scorch, epoch uint64, sm *segmentMerge)                       {}
 func verifIntroduceMerge(s *Scorch, info *verifMergeInfo, skipped []bool, snap *IndexSnapshot) {
 }
